@@ -134,8 +134,10 @@ func parseParams(value string, eval bool, options buildOpts) (
 			strParam = p.value
 		}
 
-		if err = os.Setenv(strconv.Itoa(i+1), strParam); err != nil {
-			return
+		if eval {
+			if err = os.Setenv(strconv.Itoa(i+1), strParam); err != nil {
+				return
+			}
 		}
 
 		if !options.noEval && p.name != "" {
